@@ -866,6 +866,21 @@ pub fn semantic_key_histories(ctx: &mut Ctx, monitor: &str, judged_ops: &[&str])
         Box::new(|v| (json!({"substr": [v, 1, 3]}), Value::Null)),
         Box::new(|v| (json!({"substr": ["abcdefghijklmnop", v]}), Value::Null)),
         Box::new(|v| (json!({"log": [v]}), Value::Null)),
+        // calls that fail part-way: while a later operand is being evaluated, inside a step, after some output
+        Box::new(|v| (json!({"cat": [v, {"+": ["x"]}]}), Value::Null)),
+        Box::new(|v| (json!({"==": [v, {"var": [[]]}]}), Value::Null)),
+        Box::new(|v| (json!({"===": [v, v, {"-": ["a"]}]}), Value::Null)),
+        Box::new(|v| (json!({"<": [1, v, {"-": ["a"]}]}), Value::Null)),
+        Box::new(|v| (json!({"merge": [v, [v], {"/": [1, 0]}]}), Value::Null)),
+        Box::new(|v| (json!({"+": [1, 2, v, {"*": ["y"]}]}), Value::Null)),
+        Box::new(|v| (json!({"map": [[1, v, 2], {"+": [{"var": ""}, {"%": [1, 0]}]}]}), Value::Null)),
+        Box::new(|v| (json!({"reduce": [[v, "q"], {"+": [{"var": "current"}, {"var": "accumulator"}]}, 0]}), Value::Null)),
+        Box::new(|v| (json!({"missing_some": [2, [v, "zz", 1.5]]}), json!({"a": 1}))),
+        Box::new(|v| (json!({"var": ["zz", {"cat": [v, {"+": ["x"]}]}]}), json!({"a": 1}))),
+        Box::new(|v| (json!({"if": [v, {"+": ["x"]}, {"-": ["y"]}]}), Value::Null)),
+        Box::new(|v| (json!({"and": [true, v, {"max": ["z"]}]}), Value::Null)),
+        Box::new(|v| (json!({"some": [[0, v, {"/": [1]}], {"===": [{"var": ""}, "never"]}]}), Value::Null)),
+        Box::new(|v| (json!({"substr": [{"cat": [v]}, {"+": ["x"]}]}), Value::Null)),
     ];
     let mut calls = 0u64;
     let mut run = |ctx: &mut Ctx, route: usize, v: &Value| {
